@@ -20,7 +20,7 @@ class TlcFailure(Exception):
 def run(module, cfg, env=None, workers=1, timeout=3600, scratch=None, extra=None, heap=None):
     """-> stdout of TLC (str).  `scratch` is the directory for -metadir."""
     meta = tempfile.mkdtemp(prefix="tlcmeta-", dir=scratch)
-    cmd = ["java", "-XX:+UseParallelGC"]
+    cmd = ["java", "-XX:+UseParallelGC", "-Xss64m"]
     if heap:
         cmd.append("-Xmx" + heap)
     cmd += ["-cp", JAR, "tlc2.TLC", "-workers", str(workers), "-metadir", meta,
